@@ -120,6 +120,11 @@ func genTable(r *gen.Rand) table {
 				g.kind = 'L'
 			case x < 39:
 				g.kind = 'G'
+			case x < 44:
+				g.kind = 'R'
+				if r.Chance(2, 3) {
+					g.methods = []string{gen.Pick(r, regMethods)}
+				}
 			case x < 47:
 				g.kind = 'A'
 				n := 2 + r.Intn(2)
@@ -135,7 +140,12 @@ func genTable(r *gen.Rand) table {
 				g.kind = 'A'
 				g.methods = []string{gen.Pick(r, regMethods)}
 			}
-			if g.kind == 'G' || r.Chance(1, 5) {
+			if g.kind == 'R' {
+				g.chain = append(g.chain, genPattern(r, pool))
+				if r.Chance(1, 3) {
+					g.chain = append(g.chain, gen.Pick(r, tails))
+				}
+			} else if g.kind == 'G' || r.Chance(1, 5) {
 				for d := 1 + r.Intn(2); d > 0; d-- {
 					if r.Chance(1, 3) {
 						g.chain = append(g.chain, gen.Pick(r, pool))
@@ -144,14 +154,14 @@ func genTable(r *gen.Rand) table {
 					}
 				}
 			}
-			if g.kind != 'G' {
+			if g.kind != 'G' && g.kind != 'R' {
 				g.path = genPattern(r, pool)
 				if g.kind == 'U' && r.Chance(1, 3) {
 					g.path = gen.Pick(r, []string{"", "/", gen.Pick(r, pool), gen.Pick(r, pool) + "/"})
 				}
 			}
 		}
-		use := g.kind == 'U' || g.kind == 'G'
+		use := g.kind == 'U' || g.kind == 'G' || (g.kind == 'R' && len(g.methods) == 0)
 		nh := gen.Pick(r, []int{1, 1, 1, 1, 2, 2, 3})
 		for k := 0; k < nh; k++ {
 			g.hs = append(g.hs, handler{hid, genScript(r, use, novr)})
@@ -161,7 +171,7 @@ func genTable(r *gen.Rand) table {
 	}
 	for i := 0; i < novr; i++ {
 		for tries := 0; ; tries++ {
-			p := derivePath(r, t, pool)
+			p, _ := derivePath(r, t, pool)
 			if pathOK(p) || tries > 20 {
 				if !pathOK(p) {
 					p = "/new"
@@ -184,7 +194,7 @@ func effPattern(g reg) string {
 			p = joinGroup(p, c)
 		}
 	}
-	if g.kind == 'G' {
+	if g.kind == 'G' || g.kind == 'R' {
 		return p
 	}
 	if len(g.chain) > 0 {
@@ -279,18 +289,24 @@ func mutate(r *gen.Rand, p string) string {
 	return p
 }
 
-func derivePath(r *gen.Rand, t table, pool []string) string {
+// derivePath returns a request path aimed at the table, and the registration it was derived from (or nil).
+func derivePath(r *gen.Rand, t table, pool []string) (string, *reg) {
 	var p string
+	var from *reg
 	switch x := r.Intn(10); {
-	case x < 6 && len(t.regs) > 0:
+	case x < 7 && len(t.regs) > 0:
 		g := gen.Pick(r, t.regs)
+		from = &g
 		pat := effPattern(g)
-		if r.Chance(1, 8) {
+		if r.Chance(1, 10) {
 			p = pat // the pattern's own text
 		} else {
 			p = fill(r, pat)
 		}
-	case x < 8:
+		if (g.kind == 'U' || g.kind == 'G') && r.Chance(1, 2) {
+			p = strings.TrimRight(p, "/") + "/" + gen.Pick(r, values)
+		}
+	case x < 9:
 		p = gen.Pick(r, pool) + gen.Pick(r, []string{"", "/", "/" + gen.Pick(r, values), "/" + gen.Pick(r, values) + "/c"})
 	default:
 		p = gen.Pick(r, []string{"/", "/a", "/ab", "/abc", "/a/", "/A", "/zz", "/new", "/a/b"})
@@ -298,13 +314,13 @@ func derivePath(r *gen.Rand, t table, pool []string) string {
 	if p == "" || p[0] != '/' {
 		p = "/" + p
 	}
-	for k := r.Intn(3); k > 0; k-- {
+	for k := gen.Pick(r, []int{0, 0, 0, 1, 1, 2}); k > 0; k-- {
 		p = mutate(r, p)
 	}
 	if p == "" || p[0] != '/' {
 		p = "/" + p
 	}
-	return p
+	return p, from
 }
 
 func genReq(r *gen.Rand, t table) (string, string) {
@@ -318,18 +334,21 @@ func genReq(r *gen.Rand, t table) (string, string) {
 		pool = stems
 	}
 	var path string
+	var from *reg
 	for tries := 0; ; tries++ {
-		path = derivePath(r, t, pool)
+		path, from = derivePath(r, t, pool)
 		if pathOK(path) {
 			break
 		}
 		if tries > 20 {
-			path = "/a"
+			path, from = "/a", nil
 			break
 		}
 	}
 	method := gen.Pick(r, reqMethods)
-	if r.Chance(1, 2) {
+	if from != nil && len(from.methods) > 0 && r.Chance(3, 4) {
+		method = gen.Pick(r, from.methods)
+	} else if r.Chance(1, 3) {
 		g := gen.Pick(r, t.regs)
 		if len(g.methods) > 0 {
 			method = gen.Pick(r, g.methods)
